@@ -25,7 +25,7 @@ RULE = (
 MH_PARAMS = [
     ["IntRange", 0, 0], ["IntRange", 0, 1], ["IntRange", -2, 2], ["IntRange", 2, 2], ["IntRange", 0, 70],
     ["IntList", [1]], ["IntList", [1, 3]], ["IntList", [3, 1, 2]],
-    ["FloatRange", 0.0, 1.0], ["FloatRange", 1.5, 1.5], ["FloatRange", -1.0, 1.0],
+    ["FloatRange", 0.0, 1.0], ["FloatRange", 1.5, 1.5], ["FloatRange", -1.0, 1.0], ["FloatRange", 0, 1], ["FloatRange", 2, 2],
     ["FloatList", [0.5]], ["FloatList", [0.5, 1.5]],
     ["VarRange", ["x"]], ["VarRange", ["x", "y"]],
     ["LSB", 0, 0], ["LSB", 0, 2], ["LSB", 1, 2], ["LSB", 2, 2], ["LSBW", 0, 1], ["LSBW", 2, 3],
